@@ -30,6 +30,7 @@ type Obligation struct {
 	replayed   bool
 	replayNote string
 	replayData map[string]interface{}
+	rawText    string    // a ready-made SMT-LIB query (prelude lemma files): must be unsat
 	coverPaths [][]*Term // kind "cover": passes when one of these path conditions is not refuted
 	// for the replay harness: the function under contract, its symbolic arguments and its pre-state
 	fnSSA *ssa.Function
